@@ -1,3 +1,6 @@
 import GoMailModel.Props.C10
 open GoMail.Props.C10
 #print axioms part_header_reads_back
+#print axioms parse_stores_the_rendered_content
+#print axioms stored_content
+#print axioms nested_layers_are_flattened
